@@ -98,7 +98,7 @@ class Closure:
 
 class Frame:
     __slots__ = ('info', 'locals', 'enclosing', 'gen', 'first_arg', 'defcls', 'loop_counter', 'call_counter',
-                 'reduce_counter', 'reduce_site', 'assumed')
+                 'reduce_counter', 'reduce_site', 'assumed', 'proving')
 
     def __init__(self, info, locals_, enclosing, first_arg=None, defcls=None):
         self.info = info
@@ -112,6 +112,7 @@ class Frame:
         self.reduce_counter = 0
         self.reduce_site = None
         self.assumed = False    # the truth of this frame's result is about to be assumed (see Interp.call_assumed)
+        self.proving = None     # (obligation name, meta): the truth of this frame's result is to be proved
 
 
 class SuperProxy:
@@ -356,11 +357,13 @@ class Interp:
                                     % (info.qualname, next(iter(kwargs)))))
         return loc
 
-    def run_function(self, info, enclosing, defaults, kwdefaults, args, kwargs, defcls=None, assumed=False):
+    def run_function(self, info, enclosing, defaults, kwdefaults, args, kwargs, defcls=None, assumed=False,
+                     proving=None):
         loc = self.bind_args(info, defaults, kwdefaults, args, kwargs)
         first = args[0] if args else None
         frame = Frame(info, loc, enclosing, first, defcls)
         frame.assumed = assumed
+        frame.proving = proving
         if info.is_generator and self.collect is not None and self.collect[0] is info and not self.collect[2]:
             # the generator under verification: its body runs here, yields go to the ghost sequence
             from .gens import CollectGen
@@ -450,10 +453,19 @@ class Interp:
         calls in `return f(..) and g(..)` positions, whose results then must be true as well -- a statement
         `if c: return False` does not need a case split: the path on which c holds would be dropped by the
         assumption anyway, so `not c` is assumed on the spot."""
-        kwargs = kwargs or {}
+        return self._call_spec(f, args, kwargs or {}, True, None)
+
+    def call_proving(self, f, args, name, meta, kwargs=None):
+        """Call a spec predicate whose result is going to be PROVED (an obligation `name`).  In its frame (and
+        in `return f(..) and g(..)` positions below it) a statement `if c: return False` becomes the obligation
+        `not c` followed by the assumption `not c`, and a conjunction is proved conjunct by conjunct: the same
+        proof, in smaller steps, without case splits."""
+        return self._call_spec(f, args, kwargs or {}, False, (name, meta))
+
+    def _call_spec(self, f, args, kwargs, assumed, proving):
         if isinstance(f, Closure) and _is_spec_file(f.info.filename):
             return self.run_function(f.info, f.enclosing, f.defaults, f.kwdefaults, args, kwargs, f.defcls_hint,
-                                     assumed=True)
+                                     assumed=assumed, proving=proving)
         if isinstance(f, types.FunctionType) and _is_spec_file(f.__code__.co_filename) \
                 and self.reg.contract_for(f) is None and self.reg.model_for(f) is None:
             info = funcinfo_of(f)
@@ -461,7 +473,7 @@ class Interp:
             if f.__closure__:
                 enclosing = [dict(zip(f.__code__.co_freevars, [_cell(c) for c in f.__closure__]))]
             return self.run_function(info, enclosing, f.__defaults__ or (), f.__kwdefaults__, args, kwargs, None,
-                                     assumed=True)
+                                     assumed=assumed, proving=proving)
         return self.call(f, args, kwargs)
 
     def call_function_object(self, func, args, kwargs, defcls, bound_self=None):
@@ -1080,6 +1092,12 @@ class Interp:
             for v in node.values:
                 self.st.assume(self.truth(self.eval(v, frame)))
             return True
+        if is_and and frame.proving is not None and id(node) in _assumed_positions(frame.info):
+            for v in node.values:
+                t = self.truth(self.eval(v, frame))
+                self.st.oblige(frame.proving[0], t, dict(frame.proving[1], step='conjunct at line %d' % v.lineno))
+                self.st.proof_step(t)
+            return True
         vals = node.values
         return self._boolop(is_and, vals, 0, frame)
 
@@ -1274,6 +1292,8 @@ class Interp:
         frame.call_counter += 1
         if frame.assumed and id(node) in _assumed_positions(frame.info):
             return self.call_assumed(f, args, kwargs)
+        if frame.proving is not None and id(node) in _assumed_positions(frame.info):
+            return self.call_proving(f, args, frame.proving[0], frame.proving[1], kwargs)
         return self.call(f, args, kwargs)
 
     def _super(self, frame):
@@ -1634,6 +1654,14 @@ class Interp:
                 and isinstance(node.body[0].value, ast.Constant) and node.body[0].value.value is False:
             # `if c: return False` in a predicate that is being assumed
             self.st.assume(self.not_(self.eval(node.test, frame)))
+            return None
+        if frame.proving is not None and not node.orelse and len(node.body) == 1 \
+                and isinstance(node.body[0], ast.Return) and isinstance(node.body[0].value, ast.Constant) \
+                and node.body[0].value.value is False:
+            # `if c: return False` in a predicate that is being proved: prove `not c` here, then rely on it
+            nc = self.not_(self.eval(node.test, frame))
+            self.st.oblige(frame.proving[0], nc, dict(frame.proving[1], step='line %d' % node.lineno))
+            self.st.proof_step(nc)
             return None
         if self.branch(self.eval(node.test, frame)):
             return self.exec_block(node.body, frame)
